@@ -247,6 +247,8 @@ def to_poly(x):
         return Poly.const(int(x))
     if isinstance(x, (int, Fraction)):
         return Poly.const(x)
+    if isinstance(x, Obj):
+        return Poly.atom(x.name)
     if isinstance(x, float):
         if x != x or x in (float("inf"), float("-inf")):
             return Poly.atom("NAN" if x != x else ("INF" if x > 0 else "NEGINF"))
@@ -347,6 +349,16 @@ class Shape:
 SHAPE = Shape()
 
 
+class Obj:
+    """An opaque object (model, config ...): attributes and items are again opaque; as a scalar it is an atom."""
+
+    def __init__(self, name):
+        self.name = name
+
+    def __repr__(self):
+        return f"<obj {self.name}>"
+
+
 class Module:
     def __repr__(self):
         return "<backend/module handle>"
@@ -383,7 +395,8 @@ MODULE_NAMES = {"tensorlib", "default_backend", "np", "numpy", "math", "jnp", "t
 
 
 class Interp:
-    def __init__(self, env=None, selfattrs=None, region=None, methods=None, cls_name=None, max_steps=200000):
+    def __init__(self, env=None, selfattrs=None, region=None, methods=None, cls_name=None, max_steps=200000, externals=None):
+        self.externals = externals or {}  # call name -> f(args, kwargs) modelling a callee outside the fragment
         self.env = dict(env or {})
         self.selfattrs = selfattrs if selfattrs is not None else {}
         self.region = dict(region or {})  # atom -> Fraction representative (decides comparisons)
@@ -402,7 +415,7 @@ class Interp:
         return None
 
     def call_function(self, fnode, args, kwargs=None, bind_self=False):
-        sub = Interp(self.env, self.selfattrs, self.region, self.methods, self.cls_name)
+        sub = Interp(self.env, self.selfattrs, self.region, self.methods, self.cls_name, externals=self.externals)
         sub.thresholds_seen = self.thresholds_seen
         params = [a.arg for a in fnode.args.posonlyargs + fnode.args.args]
         if bind_self and params and params[0] == "self":
@@ -558,6 +571,13 @@ class Interp:
                 raise Undecided(f"unknown attribute self.{e.attr}")
             if A.dotted(e) in HANDLE_NAMES:
                 return MODULE
+            if isinstance(e.value, (ast.Name, ast.Attribute, ast.Subscript)):
+                try:
+                    basev = self.eval(e.value)
+                except Undecided:
+                    basev = None
+                if isinstance(basev, Obj):
+                    return Obj(f"{basev.name}.{e.attr}")
             if e.attr == "shape":
                 return SHAPE
             if e.attr == "pi" and A.dotted(e) in ("np.pi", "math.pi", "numpy.pi", "jnp.pi"):
@@ -639,6 +659,10 @@ class Interp:
                     st = self._int(e.slice.step, 1)
                     return list(base[lo:hi:st])
                 raise Undecided("slicing")
+            if isinstance(base, Obj):
+                return Obj(f"{base.name}[{A.short(e.slice, 30)}]")
+            if isinstance(base, Poly):
+                return base  # element of an element-wise tensor
             idx = self.eval(e.slice)
             if isinstance(base, (list, tuple)):
                 i = int(to_poly(idx).const_value())
@@ -690,13 +714,17 @@ class Interp:
     def call(self, e: ast.Call):
         f = e.func
         name = A.call_attr(e)
+        if name in self.externals:
+            xa = [self.eval(a) for a in e.args]
+            xk = {k.arg: self.eval(k.value) for k in e.keywords if k.arg}
+            return self.externals[name](xa, xk)
         # closures and inlined methods
         if isinstance(f, ast.Name) and isinstance(self.env.get(f.id), Closure):
             clo = self.env[f.id]
             args = [self.eval(a) for a in e.args]
             kwargs = {k.arg: self.eval(k.value) for k in e.keywords if k.arg}
             if isinstance(clo.node, ast.Lambda):
-                sub = Interp(self.env, self.selfattrs, self.region, self.methods, self.cls_name)
+                sub = Interp(self.env, self.selfattrs, self.region, self.methods, self.cls_name, externals=self.externals)
                 for p, a in zip([x.arg for x in clo.node.args.args], args):
                     sub.env[p] = a
                 return sub.eval(clo.node.body)
